@@ -48,6 +48,11 @@ pub struct Profile {
     pub p_indirect_call: f64,
     /// arithmetic whose destination is x0
     pub p_write_zero: f64,
+    /// a function gets an error-exit block behind its epilogue (the exit ecall is then the last
+    /// instruction of the function, directly in front of the next function)
+    pub p_tail_exit: f64,
+    /// CSR reads / writes / set-bits on user-level CSRs other than utvec (non-conforming profiles only)
+    pub p_csr: f64,
 }
 
 impl Profile {
@@ -79,6 +84,8 @@ impl Profile {
             p_branch_to_function: 0.0,
             p_indirect_call: 0.0,
             p_write_zero: 0.0,
+            p_tail_exit: 0.12,
+            p_csr: 0.0,
         }
     }
     /// Wild programs with indirect calls (`jalr`), for parser / surface workloads (not executed).
@@ -117,6 +124,8 @@ impl Profile {
             p_branch_to_function: 0.0,
             p_indirect_call: 0.0,
             p_write_zero: 0.04,
+            p_tail_exit: 0.12,
+            p_csr: 0.03,
         }
     }
 }
@@ -491,6 +500,23 @@ impl<'a> G<'a> {
                 self.emit(Ins::lw(rd, 4, SP));
                 self.emit(Ins::addi(SP, SP, 16));
                 self.define(f, rd);
+            }
+            return;
+        }
+        if self.prof.p_csr > 0.0 && self.rng.chance(self.prof.p_csr) {
+            let csr = *self.rng.pick(&[0u32, 0x40, 0x41, 0x42, 0x43, 0x40]);
+            let a = if self.rng.chance(0.3) { ZERO } else { self.src(f) };
+            let rd = if self.rng.chance(0.25) { Some(ZERO) } else { self.dst(f, &[a]) };
+            if let Some(rd) = rd {
+                let ins = match self.rng.below(3) {
+                    0 => Ins::Csrrw { rd, csr, rs1: a },
+                    1 => Ins::Csrrs { rd, csr, rs1: a },
+                    _ => Ins::Csrrwi { rd, csr, imm: self.rng.range(0, 31) as i32 },
+                };
+                self.emit(ins);
+                if rd != ZERO {
+                    self.define(f, rd);
+                }
             }
             return;
         }
@@ -1358,6 +1384,19 @@ impl<'a> G<'a> {
                 f.rec_src = Some(s);
             }
         }
+        // an error exit behind the epilogue, entered by a branch from the top of the body
+        let mut tail_exit: Option<(String, St)> = None;
+        // (not in the function whose last return is dropped to plant a fall-through: it has to
+        // fall into the next function, not into its own exit block)
+        let falls_through = self.inject == Some(Inject::FallThrough) && self.inject_fn == me;
+        if self.rng.chance(self.prof.p_tail_exit) && !falls_through {
+            let l_fail = self.label("fail");
+            let (c, a, b) = self.cond_regs(&mut f);
+            self.sync(&mut f);
+            self.emit(Ins::Branch { c, rs1: a, rs2: b, label: l_fail.clone() });
+            self.sync(&mut f);
+            tail_exit = Some((l_fail, f.st.clone()));
+        }
         self.block(&mut f);
         if !leaf {
             if let Some(src) = f.rec_src {
@@ -1372,6 +1411,15 @@ impl<'a> G<'a> {
             }
         }
         self.epilogue(&mut f, false);
+        if let Some((l_fail, st)) = tail_exit {
+            let after = f.st.clone();
+            f.st = st;
+            self.emit_label(&l_fail);
+            self.exit_sequence(&mut f);
+            // (drain the read log: these reads belong to this function)
+            self.sync(&mut f);
+            f.st = after;
+        }
         // record planted sites that are properties of the whole function
         let writes_of = |g: &G, r: Reg, calls: bool| -> Vec<usize> {
             (first_line..g.out.len())
